@@ -10,6 +10,7 @@ import (
 	"os/exec"
 	"path/filepath"
 	"strings"
+	"syscall"
 	"testing"
 	"time"
 
@@ -37,7 +38,7 @@ type cliScript struct {
 	Transport     string   `json:"transport"` // stdin | file | files | files-with-stdin
 	Cuts          []int    `json:"cuts"`      // byte positions (mod len) where the input is cut into files
 	OutFile       bool     `json:"out_file"`
-	StaleOut      bool     `json:"stale_out_file"` // the -o file exists before the run
+	StaleOut      bool     `json:"stale_out_file"`  // the -o file exists before the run
 	LongLineBytes int      `json:"long_line_bytes"` // >0: the last query carries a string literal this long
 	// DirAt >= 0 (transport "files" only): a directory is passed as one more
 	// input after that many files; reading it fails
@@ -326,6 +327,19 @@ func runCLI(s *cliScript, input string) (cliRun, error) {
 			at := min(max(*s.DirAt, 0), len(args))
 			args = append(args[:at], append([]string{d}, args[at:]...)...)
 		}
+	case "fifo":
+		// a named pipe: readable once, front to back, and not seekable
+		p := filepath.Join(dir, "in.fifo")
+		if err := syscall.Mkfifo(p, 0o644); err != nil {
+			return cliRun{}, err
+		}
+		go func() {
+			if f, err := os.OpenFile(p, os.O_WRONLY, 0); err == nil {
+				f.WriteString(input)
+				f.Close()
+			}
+		}()
+		args = append(args, p)
 	default:
 		stdin = input
 	}
@@ -435,7 +449,7 @@ func init() {
 	})
 }
 
-var cliSeps = []string{longCommentBlock(1100), longCommentBlock(4200), "\n", "\n", "\n", "\n", "\n", "\n", " ", "", "\n\n", "\n// a comment; with a semicolon\n", "  \n\t", "\n// c\n\n", " // trailing comment\n"}
+var cliSeps = []string{longCommentBlock(1100), longCommentBlock(4200), "\n// disabled for now:\rU | count;\n", "\n// a\rb\n", "\n", "\n", "\n", "\n", "\n", "\n", " ", "", "\n\n", "\n// a comment; with a semicolon\n", "  \n\t", "\n// c\n\n", " // trailing comment\n"}
 
 // longCommentBlock: comment lines of at least n bytes in all (a file header,
 // a commented-out block) between two statements.
@@ -540,6 +554,8 @@ func TestC16Scripts(t *testing.T) {
 					"T | where s == 'it\\'s // not a comment' | take 1",
 					"T | where `a\\` == 1",
 					"T | where s == 'a\ufeffb' | count",
+					"T | where s == 'first\rsecond' | count",
+					"T | where `x\ry` > 1 // c\rd\n| take 1",
 					"`a\ufeffb` | where `\ufeff` != '\u00a0' | take 1",
 					"T | project `C:\\logs\\`, b | where `C:\\logs\\` != 'x\\\\'",
 					"T | extend r = hits/`cache misses` | take 1",
@@ -558,7 +574,7 @@ func TestC16Scripts(t *testing.T) {
 		s.FinalSemi = rapid.Bool().Draw(rt, "finalsemi")
 		s.FinalNewline = rapid.Bool().Draw(rt, "finalnewline")
 		s.CRLF = rapid.IntRange(0, 5).Draw(rt, "crlf") == 0
-		s.Transport = rapid.SampledFrom([]string{"stdin", "stdin", "file", "files", "files", "files-with-stdin"}).Draw(rt, "transport")
+		s.Transport = rapid.SampledFrom([]string{"stdin", "stdin", "file", "files", "files", "files-with-stdin", "fifo"}).Draw(rt, "transport")
 		s.Cuts = []int{rapid.IntRange(0, 100000).Draw(rt, "cut1"), rapid.IntRange(0, 100000).Draw(rt, "cut2")}
 		s.OutFile = rapid.IntRange(0, 3).Draw(rt, "outfile") == 0
 		s.StaleOut = s.OutFile && rapid.Bool().Draw(rt, "staleout")
@@ -664,7 +680,9 @@ func TestC16Scripts(t *testing.T) {
 		if nt {
 			st.Class("nontrivial")
 			st.NonTrivial(kinds + "|" + s.Transport + fmt.Sprint(s.OutFile, s.CRLF, s.FinalSemi))
-			st.SampleHashed("script", s.text(), func() any { return map[string]any{"kinds": kinds, "transport": s.Transport, "input": trunc(s.text(), 400)} })
+			st.SampleHashed("script", s.text(), func() any {
+				return map[string]any{"kinds": kinds, "transport": s.Transport, "input": trunc(s.text(), 400)}
+			})
 		}
 	})
 }
